@@ -20,7 +20,7 @@ from ..util import (
     urlsafe_b64decode,
 )
 from .._keys import Key
-from ..errors import DecodeError
+from ..errors import DecodeError, MissingEncryptionError
 
 
 def represent_general_json(obj: GeneralJSONEncryption) -> GeneralJSONSerialization:
@@ -97,6 +97,8 @@ def __decode_protected(segment: str) -> Header:
     protected = json_b64decode(segment)
     if not isinstance(protected, dict):
         raise DecodeError("Invalid header")
+    if "enc" not in protected:
+        raise MissingEncryptionError()
     return protected
 
 
